@@ -221,6 +221,25 @@ def max_abs_argument(e, x, names):
     return best[0]
 
 
+def min_abs_argument(e, x, names):
+    """Smallest |argument| passed to a unary function in ``names`` at the real point x (inf if none)."""
+    best = [math.inf]
+
+    def unary(name, u):
+        if name in names:
+            try:
+                best[0] = min(best[0], float(np.min(np.abs(u))))
+            except Exception:
+                pass
+        return _np_unary(name, u)
+    try:
+        with np.errstate(all='ignore'):
+            ev(e, x, unary)
+    except Exception:
+        pass
+    return best[0]
+
+
 def min_abs_pow_base(e, x):
     """Smallest |base| of a real power / sqrt node when the tree is evaluated at the real point x
     (inf if there is none).  Bicomplex.__pow__ treats |base| < 1e-15 as a zero divisor."""
